@@ -487,6 +487,7 @@ func main() {
 	out := flag.String("out", "/verif/.build/gen", "output directory")
 	pkgsFlag := flag.String("pkgs", "deadline,packetio,dpipe,udp,netctx,connctx,vnet,test", "packages to rewrite")
 	extra := flag.String("extra", "", "comma separated extra overlay entries dst=src")
+	shimDir := flag.String("shim", "", "directory holding the zzvsched shim (default <verif>/shim/zzvsched)")
 	flag.Parse()
 
 	ov := overlay{Replace: map[string]string{}}
@@ -546,6 +547,9 @@ func main() {
 	}
 	// shim packages
 	shimRoot := filepath.Join(*verif, "shim", "zzvsched")
+	if *shimDir != "" {
+		shimRoot = *shimDir
+	}
 	filepath.Walk(shimRoot, func(p string, fi os.FileInfo, err error) error {
 		if err != nil || fi.IsDir() || !strings.HasSuffix(p, ".go") {
 			return nil
@@ -606,7 +610,11 @@ func main() {
 	if err := os.MkdirAll(filepath.Dir(*out), 0o755); err != nil {
 		die("%v", err)
 	}
-	if err := os.WriteFile(filepath.Join(filepath.Dir(*out), "overlay.json"), b, 0o644); err != nil {
+	ovName := "overlay.json"
+	if strings.HasSuffix(*out, "-race") {
+		ovName = "overlay-race.json"
+	}
+	if err := os.WriteFile(filepath.Join(filepath.Dir(*out), ovName), b, 0o644); err != nil {
 		die("%v", err)
 	}
 	fmt.Fprintf(os.Stderr, "instr: rewrote %d files, overlay has %d entries\n", nfiles, len(ov.Replace))
